@@ -6,7 +6,7 @@ fcntl.flock(lock, fcntl.LOCK_EX)
 for p in sys.argv[1:]:
     txt = open(p).read()
     head, *files = re.split(r"(?m)^(?=diff --git )", txt)
-    kept = [f for f in files if not re.match(r"diff --git a/(teshsuite/|examples/[^\n]*\.tesh|[^\n]*\.tesh)", f)]
+    kept = [f for f in files if not re.match(r"diff --git a/(teshsuite/|[^\n ]*\.tesh|[^\n ]*_test\.cpp|[^\n ]*/unit-tests)", f)]
     dropped = len(files) - len(kept)
     # keep the mail trailer of the last file if it was dropped
     new = head + "".join(kept)
